@@ -108,7 +108,13 @@ def features_arg(prop):
     return "--features prop_%s" % prop.lower()
 
 
-def prepare_workers(prop, n):
+def clean_harness_artifacts(tdir):
+    """Per-harness goto binaries are large (tens of MB each); drop them after use."""
+    for d in Path(tdir).glob("kani/*/debug/build/fir_kh*"):
+        shutil.rmtree(d, ignore_errors=True)
+
+
+def prepare_workers(prop, n, first):
     """One target dir per worker; the first is built, the others are copies."""
     base = TGT / prop
     dirs = [base / ("w%d" % i) for i in range(n)]
@@ -119,11 +125,12 @@ def prepare_workers(prop, n):
         if seed.exists():
             subprocess.run(["cp", "-a", str(seed), str(dirs[0])], check=True)
     # build (or refresh) worker 0 against the *current* /repo sources
-    rc, out, to = sh("cargo kani %s --target-dir %s --only-codegen" % (features_arg(prop), dirs[0]),
+    rc, out, to = sh("cargo kani %s --target-dir %s --only-codegen --harness %s" % (features_arg(prop), dirs[0], first),
                      timeout=1800)
     if rc != 0:
         log(out[-6000:])
         raise SystemExit("INCONCLUSIVE: harness crate does not build against /repo (exit 2)")
+    clean_harness_artifacts(dirs[0])
     for d in dirs[1:]:
         if d.exists():
             shutil.rmtree(d)
@@ -328,6 +335,7 @@ def triage(prop, failed_results, harnesses, tdirs):
             rc, out, to = sh(kani_cmd(h, prop, d, playback=True), timeout=float(h["t"]) * 3,
                              mem_gb=float(h["mem"]))
         finally:
+            clean_harness_artifacts(d)
             free.put(d)
         return [t for t in parse_playback_tests(out) if t["kind"] != "cover" and t["test"]
                 and not BENIGN.match(t["check"].strip('"')) and "unwinding assertion" not in t["check"]]
@@ -468,7 +476,7 @@ def main():
     if not hs:
         raise SystemExit("no harnesses for %s" % prop)
     n = max(1, min(a.jobs, len(hs)))
-    tdirs = prepare_workers(prop, n)
+    tdirs = prepare_workers(prop, n, sorted(hs)[0])
     free = queue.Queue()
     for d in tdirs:
         free.put(d)
@@ -478,6 +486,7 @@ def main():
         try:
             return run_harness(h, prop, d, a.scale)
         finally:
+            clean_harness_artifacts(d)
             free.put(d)
 
     order = sorted(hs.values(), key=lambda h: -float(h["t"]))
